@@ -26,7 +26,7 @@ class C09(Spec):
     rule = ("phist: a fixed probe set (Marshal/Unmarshal of plain, deeply nested, recursive, same-named (two packages, two function-local "
             "types), equal-hash reflect.StructOf and pointer-receiver-marshaler types) executed in a FRESH PROCESS after a prelude (permuted first use, Pretouch/PretouchMany with inline/recursion depths, "
             "thousands of filler types forcing rehash) and compared with a fresh process without prelude and with encoding/json "
-            "(non-trivial: prelude is not `none`); order: one key set inserted in different orders / capacities on the real _ProgramMap vs the model")
+            "(non-trivial: prelude is not `none`); the decoder-relevant families also with the alternative decoder (SONIC_USE_OPTDEC=1, baseline of the same configuration); order: one key set inserted in different orders / capacities on the real _ProgramMap vs the model")
     trusted_base = ["the compiler and the generated code are not modelled here: that programs compiled with different inline/recursion "
                     "depths behave alike is tied by the hist correspondence only",
                     "os/exec fresh-process isolation of the harness"]
@@ -42,6 +42,7 @@ class C09(Spec):
         q = tier == "quick"
         return [
             Stream("hist", "c09.hist", 1, timeout=20.0, use_model=False),
+            Stream("hist-optdec", "c09.histopt", 1, envs={"optdec": {"SONIC_USE_OPTDEC": "1"}}, timeout=20.0, use_model=False),
             Stream("order", "c09.order", 150 if q else 3000, timeout=0.2),
         ]
 
@@ -106,6 +107,23 @@ class C09(Spec):
                     facts[label] = "NOT positional"
                     tie("pretouch-batch-not-positional", "%s no longer pairs entries[i] with loaded[i]; same-named types of one batch can get one "
                         "codec (witness: Props.C09.PreFix.pretouch_batch_same_name_wrong_code)" % label)
+            # (d) optdec: one compiler per pretouched type; namedPtr rule before the depth/width test (Model/ConcOptdec.lean)
+            od = strip(open(os.path.join(core.REPO, "internal", "decoder", "optdec", "decoder.go")).read())
+            pt, pr = body(od, r"func pretouchType\("), body(od, r"func pretouchRec\(")
+            if "newCompiler()" in pt and "newCompiler()" not in pr:
+                facts["optdec.pretouchType"] = "a new compiler per type (Model/ConcOptdec.pretouchType)"
+            else:
+                facts["optdec.pretouchType"] = "compiler NOT allocated per type"
+                tie("optdec-pretouch-shares-compiler", "optdec pretouchRec/pretouchType no longer build one compiler per type; `counts` leaks between "
+                    "the members of a round (witness: Props.C09.Shared.pretouch_round_depends_on_members)")
+            cs = body(strip(open(os.path.join(core.REPO, "internal", "decoder", "optdec", "compile_struct.go")).read()), r"func \(c \*compiler\) compileStruct\(")
+            i_np, i_depth = cs.find("if c.namedPtr"), cs.find("c.opts.MaxInlineDepth")
+            if 0 <= i_np < i_depth:
+                facts["optdec.compileStruct"] = "namedPtr rule before the depth/width test (compileAux order=true)"
+            else:
+                facts["optdec.compileStruct"] = "namedPtr rule NOT first"
+                tie("optdec-namedptr-rule-after-depth-test", "optdec compileStruct tests depth/width before the defined-pointer rule "
+                    "(witness: Props.C09.optdec_namedptr_depth_test_first_depends_on_inline_depth)")
         except OSError as e:
             tie("source-unreadable", str(e))
         ctx["run"].cov["source_facts"] = facts
@@ -146,8 +164,14 @@ class C09(Spec):
                     out.append((kind, "%s: probes `%s`: %s || %s || single replay line: phist<TAB>%s<TAB>%s<TAB>%s"
                                 % (env, case[2], "; ".join("after `%s`: %s" % b for b in bad)[:500], s.get("detail", "")[:300],
                                    bad[0][0] if bad else "?", case[2], case[3] if len(case) > 3 else "-")))
-                elif v != s.get("ref") and not case[2].startswith("ptrrecv"):
-                    out.append(("tie:hist-probe-vs-encoding/json", "%s: probes %s" % (env, s.get("diffref", ""))))
+                elif v != s.get("ref"):
+                    # same in every history but not what encoding/json prints: not this property's subject, except that it shows
+                    # a wrong codec.  Left out: the pointer-receiver-marshaler probes (C03) and, for the JIT decoder, the
+                    # defined-pointer probes (fresh-process face of C09-jitdec-namedptr-inline-depth)
+                    names = [n for n in _names(s.get("diffref")) if not n.startswith("ptrrecv.")
+                             and not (env == "default" and n.startswith("nref.ref"))]
+                    if names or not s.get("diffref"):
+                        out.append(("tie:hist-probe-vs-encoding/json", "%s: probes %s" % (env, ",".join(names) or "?")))
         return out
 
     def shrink_fields(self, case):
@@ -199,7 +223,18 @@ class C09(Spec):
                              lambda pre: "ptrrecv" in pre,
                              lambda w: w.startswith("diff:") and all(n.startswith("ptrrecv.") for n in _names(w[5:])))
 
-        return {"hist_same_name_batch": same_name, "hist_ptr_recv_first_use": ptr_recv}
+        def named_ptr(d, params):
+            # JIT decoder only (worker configuration `default`): elements of a defined pointer type below the inline bound,
+            # after a Pretouch that changed the inline depth; only the nref.ref* probes may differ
+            if any(env != "default" and s.get("sonic") != s.get("base") for env, s in d["sonic"].items()):
+                return False
+            if d.get("stream") not in ("hist", "replay"):
+                return False
+            return family_ok(d, "named_ptr_unmarshaler_elem", "nref",
+                             lambda pre: re.search(r"(pt|ptm):nptrr?:i\d", pre) is not None,
+                             lambda w: w.startswith("diff:") and all(n.startswith("nref.ref") for n in _names(w[5:])))
+
+        return {"hist_same_name_batch": same_name, "hist_ptr_recv_first_use": ptr_recv, "hist_jitdec_namedptr_inline_depth": named_ptr}
 
 
 SPEC = C09()
